@@ -43,7 +43,7 @@ class Tracker:
 
 def gen_case(rng, idx, maxops, c17, cfg=CFG_BITS):
     prof = rng.choice(["tight", "tight", "chain", "chain", "mixed", "mixed", "force", "wrap" if c17 else "tight"])
-    sel = 1 if (c17 and rng.below(8) != 0) else rng.below(2)
+    sel = 1 if c17 else rng.below(2)      # C17 quantifies over systems with selective update ON
     lines = ["new %d %s" % (sel, cfg)]
     t = Tracker()
     if prof == "tight":
